@@ -33,6 +33,21 @@ let init () =
          if body = "D" then frame_ans (snd (create_default !t cmd))
          else frame_ans (Some (snd (create_command !t cmd (bytes_of_hex body)))))
     | _ -> "bad-args");
+  (* simcalls <ver> <phone> <call> ... : D<cmd> = CreateDefaultCommandData, C<cmd>:<body> = CreateCommandData *)
+  register "simcalls" (fun a -> match a with
+    | ver :: phone :: calls ->
+      (match term ver phone with
+       | None -> "bad-header"
+       | Some t ->
+         let cs = Stdlib.List.map (fun c ->
+           let r = String.sub c 1 (String.length c - 1) in
+           if c.[0] = 'D' then CDefault (n_of_int (int_of_string r))
+           else match String.split_on_char ':' r with
+             | [cmd; body] -> CCustom (n_of_int (int_of_string cmd), bytes_of_hex body)
+             | _ -> failwith "call") calls in
+         let rs = Stdlib.List.map (fun o -> match o with Some f -> hex_of_bytes f | None -> "nil") (run_calls t cs) in
+         "ok r=" ^ String.concat "," rs)
+    | _ -> "bad-args");
   register "simseq" (fun a -> match a with
     | [ver; phone; count; cmd] ->
       (match term ver phone with
